@@ -463,6 +463,25 @@ fn c04_attribute(a: &TreeDesc, avail: Size<AvailableSpace>, e: i32, la: &[Layout
     if ha.thr + hb.thr > 0 && within_threshold_tol(la, lb, pow2(e)) {
         return Some(("c04-grid-track-threshold", "within-tolerance"));
     }
+    // the per-node cache compares available spaces with an ABSOLUTE tolerance (`AvailableSpace::is_roughly_equal`:
+    // |a − b| < f32::EPSILON): at a scale where distinct definite available spaces differ by less than that, lookups hit
+    // that miss at the other scale. Neutraliser: the same pair laid out with exact cache keys (hook H1) is homogeneous.
+    {
+        struct Restore(bool);
+        impl Drop for Restore {
+            fn drop(&mut self) {
+                taffy::verif_hooks::set_exact_key_mode(self.0);
+            }
+        }
+        let _g = Restore(taffy::verif_hooks::exact_key_mode());
+        taffy::verif_hooks::set_exact_key_mode(true);
+        let k = pow2(e);
+        if let ((Ok(x), _), (Ok(y), hy)) = (lay_hits(a, avail), lay_hits(&scale_tree(a, k), scale_av(avail, k))) {
+            if first_inhomogeneous(&x, &y, k).is_none() || (hy.thr > 0 && within_threshold_tol(&x, &y, k)) {
+                return Some(("c04-cache-absolute-epsilon", "exact-key-mode"));
+            }
+        }
+    }
     if ha.floor + hb.floor == 0 {
         return None;
     }
@@ -597,6 +616,26 @@ pub fn run_c04(cfg: &Cfg, out: &mut Out) -> String {
         c.grid_column = Line { start: GridPlacement::from_line_index(15), end: GridPlacement::Auto };
         let a = TreeDesc { style: g, ctx: None, children: vec![TreeDesc { style: c, ctx: Some(Ctx::Fixed(7.0, 7.0)), children: vec![] }] };
         c04_one(out, &a, Size { width: AvailableSpace::MaxContent, height: AvailableSpace::MaxContent }, 1);
+    }
+    idx += 1;
+    // fixed: witness of the cache's absolute tolerance (known finding c04-cache-absolute-epsilon): at 2^-40 every definite
+    // available space in this flex chain is within f32::EPSILON of every other, so lookups hit that miss at scale 1
+    if cfg.wants(idx) {
+        out.begin_case(idx, "fixed:cache-absolute-epsilon-witness");
+        let mut c1 = Style::DEFAULT;
+        c1.size.height = Dimension::length(39.75);
+        c1.min_size.width = Dimension::length(70.5);
+        c1.padding.right = LengthPercentage::percent(0.125);
+        c1.padding.top = LengthPercentage::percent(0.125);
+        let mut c2 = Style::DEFAULT;
+        c2.size.width = Dimension::length(0.0);
+        c2.padding.top = LengthPercentage::percent(0.375);
+        c2.align_self = Some(AlignSelf::FlexEnd);
+        let mut c3 = Style::DEFAULT;
+        c3.border.right = LengthPercentage::length(9.75);
+        let n = |s: Style, ch: Vec<TreeDesc>| TreeDesc { style: s, ctx: None, children: ch };
+        let a = n(Style::DEFAULT, vec![n(c1, vec![n(c2, vec![n(c3, vec![])])])]);
+        c04_one(out, &a, Size { width: AvailableSpace::MaxContent, height: AvailableSpace::MaxContent }, -40);
     }
     idx += 1;
     // fixed: a tree that must be exactly homogeneous (block/grid/flex with definite sizes)
